@@ -16,7 +16,7 @@ import (
 func init() { Registry["C12"] = C12 }
 
 var c12Numerals = []string{
-	"0", "-0", "0.0", "1", "1.0", "01", "1e0", "10", "9", "2", "100", "1e2",
+	"0", "-0", "0.0", "1", "1.0", "01", "1e0", "10", "010", "9", "2", "100", "0100", "1e2",
 	"0.1", "0.2", "0.3", "0.30000000000000004",
 	"1e-130", "9.9999999999999999999999999999999999999e125",
 	"9007199254740992", "9007199254740993",
@@ -69,7 +69,7 @@ func C12(run *ev.Run, tier string) map[string]interface{} {
 	thorough := tier == "thorough"
 	nums := c12Numerals
 	if thorough {
-		nums = append(append([]string{}, nums...), "0.7", "0.10", "1E2", "-0.0", "123456789012345678", "123456789012345679", "5e-1", ".5", "1e125", "99999999999999999999999999999999999999", "-9007199254740993", "3")
+		nums = append(append([]string{}, nums...), "0.7", "0.10", "1E2", "-0.0", "123456789012345678", "123456789012345679", "5e-1", ".5", "-010", "012", "08", "1e125", "99999999999999999999999999999999999999", "-9007199254740993", "3")
 	}
 	var evals int64
 	var mu sync.Mutex
@@ -227,7 +227,7 @@ func C12(run *ev.Run, tier string) map[string]interface{} {
 		}
 	}
 	// 3. number keys through the client API: identity by value (hash and range position) and order
-	keyNums := []string{"0", "-0", "0.0", "1", "1.0", "1.00", "01", "1e0", "10", "10.0", "9", "2", "2.0", "20", "20.0", "100", "100.00", "1e2", "0.1", "0.10", "0.5", "5e-1", "-1", "-1.50", "-10.0", "9007199254740992", "9007199254740993"}
+	keyNums := []string{"0", "-0", "0.0", "1", "1.0", "1.00", "01", "1e0", "10", "10.0", "010", "8", "9", "2", "2.0", "20", "20.0", "100", "100.00", "1e2", "0.1", "0.10", "0.5", "5e-1", "-1", "-1.50", "-10.0", "9007199254740992", "9007199254740993"}
 	for _, d := range Drivers {
 		d := d
 		for _, pos := range []string{"hash", "range"} {
@@ -357,7 +357,7 @@ func C12(run *ev.Run, tier string) map[string]interface{} {
 		"evaluations":         evals,
 		"distinct_nontrivial": len(jobs),
 		"numeral_alphabet":    nums,
-		"rule":                "every ordered pair of numerals of the alphabet (leading/trailing zeros, exponent form, negative zero, 2^53 and 2^53+1, two 38-digit neighbours, 0.1+0.2, extreme exponents) under the six comparators, IN, contains on a number set, SET +, SET -, ADD, number-set ADD and DELETE, BETWEEN triples; every pair of key numerals as N hash key and as N range key (put under one spelling, get and overwrite under the other); Query order of every 3-subset of number sort keys and every pair of binary sort keys; an untouched 38-digit attribute across every arithmetic update; a job is distinct by (form, numerals)",
+		"rule":                "every ordered pair of numerals of the alphabet (leading/trailing zeros incl. 010 and 0100 which a base-guessing parser reads as octal, exponent form, negative zero, 2^53 and 2^53+1, two 38-digit neighbours, 0.1+0.2, extreme exponents) under the six comparators, IN, contains on a number set, SET +, SET -, ADD, number-set ADD and DELETE, BETWEEN triples; every pair of key numerals as N hash key and as N range key (put under one spelling, get and overwrite under the other); Query order of every 3-subset of number sort keys and every pair of binary sort keys; an untouched 38-digit attribute across every arithmetic update; a job is distinct by (form, numerals)",
 		"oracle":              "exact decimal arithmetic and comparison (math/big), identity of keys by numeric value, order by value; a wrong answer is attributed to the float64 / key-text findings only when it equals what that defect model predicts",
 		"samples":             []interface{}{"a = :n with a=9007199254740993 :n=9007199254740992", "SET a = a + :n with a=0.1 :n=0.2", "Put h=1 / Get h=1.0", "Query order of r in {1,2,10}"},
 		"exhaustive":          true,
